@@ -15,7 +15,7 @@ RULE = ("one seeded 5.1 file (all delimiter classes / comment sets); one malform
         "non-trivial = file with >= 3 lines; distinct = distinct (delimiter class, error kind, kind of the preceding line, "
         "position class, entry point, member role) per execution")
 
-CODES = {"missing_bracket": 9, "text_after": 12, "empty_name": 11, "missing_delim": 10}
+CODES = {"missing_bracket": 9, "bare_bracket": 9, "text_after": 12, "empty_name": 11, "missing_delim": 10}
 KEYWORDS = {0: ["success"], 1: ["error"], 2: ["memory"], 3: ["not found", "file"], 4: ["group"], 5: ["key", "not found"], 6: ["key"], 7: ["writ"],
             8: ["parse"], 9: ["bracket"], 10: ["delimiter"], 11: ["section", "empty"], 12: ["after", "section"], 13: ["list", "null"],
             14: ["boolean"], 15: ["null", "value"], 16: ["owner"], 17: ["group"], 18: ["file", "permission"], 19: ["dir", "permission"],
@@ -68,7 +68,7 @@ def injection(world, pos):
     r = Rng(world["inject_seed"] * 1000 + pos)
     D, C = world["D"], world["C"]
     cls = grammar.dclass(D)
-    kinds = ["missing_bracket", "text_after", "empty_name"]
+    kinds = ["missing_bracket", "missing_bracket", "text_after", "text_after", "empty_name", "empty_name", "bare_bracket"]
     if cls == "NONBLANK":
         kinds.append("missing_delim")
         kinds.append("missing_delim")
@@ -81,6 +81,8 @@ def injection(world, pos):
         line = grammar.blanks(r, 0, 2) + "[" + name + "]" + grammar.blanks(r, 0, 2) + grammar.token(r, "]" + C + " \t", 1, 4)
     elif kind == "empty_name":
         line = grammar.blanks(r, 0, 2) + "[]" + grammar.blanks(r, 0, 2)
+    elif kind == "bare_bracket":
+        line = grammar.blanks(r, 0, 2) + "[" + grammar.blanks(r, 0, 2)        # nothing but the opening bracket: no closing one
     if kind != "missing_delim" and cls != "NONE" and r.chance(0.2):
         line += grammar.blanks(r, 1, 2) + r.pick(C) + grammar.token(r, C + '"', 0, 6, inner_blank=True)     # a trailing comment does not heal the line
     if kind == "missing_delim":
